@@ -12,6 +12,8 @@ class C12(Machine):
     ID = "C12"
     FAMILY_WEIGHTS = {"sparse": 3, "dense": 3, "canal": 1, "modular": 2, "maa": 3, "cascade": 1, "maa_cascade": 4, "degenerate": 1, "maa_deadpad": 1, "inputs_mix": 2}
     NMAX = {"quick": 6, "thorough": 8}
+    FMTS = ("bnet", "aeon", "api")
+    SHUFFLE_ORDER = True
 
     def gen_params(self, sc, rng):
         sc["params"] = {"prefix": rng.choice([0, 1, 2, 3]), "queries": rng.randint(2, 7), "p_fault": 0.25, "p_twin": 0.35}
@@ -75,6 +77,11 @@ class C12(Machine):
                 # the strategies that mark nodes expanded without the per-node expansion routine
                 return rng.choice([{"op": "block", "maa": rng.random() < 0.6, "size": None, "opt_src": True, "exact": False}, {"op": "scc", "maa": rng.random() < 0.6}, {"op": "build"}])
             return structural_op(world, rng)
+        if rng.random() < 0.08:
+            # read-only calls between the queries (they must not disturb what is cached)
+            from ..machine import query_op
+
+            return query_op(world, rng)
         r = rng.random()
         if r < p["p_fault"]:
             rr = rng.random()
